@@ -68,7 +68,7 @@ def eval_case(case, rng, thorough):
         flows = []
         for i in range(n):
             if rng.random() < 0.35:
-                flows.append(gen.random_quic_flow(rng, i, napp=rng.choice([2, 5, 8])))
+                flows.append(gen.random_quic_flow(rng, i, napp=rng.choice([2, 5, 8, 14]), path_swaps=rng.choice([0, 2, 3]), bulk=rng.random() < 0.4))      # two thirds with datagrams overtaken on the path
             else:
                 flows.append(gen.random_tls_flow(rng, i, nmax=8, segkinds=("mss", "random", "whole", "records", "byte2", "tail1"), min_records=2, perturb=rng.random() < 0.2,
                                                  duplex=rng.random() < 0.3, repack=rng.random() < 0.3))
